@@ -96,7 +96,7 @@ def lex(src, keep_comments=False):
         if c == "'":
             # char literal or lifetime
             if i + 2 < n and src[i + 1] == '\\':
-                j = i + 2
+                j = i + 3          # skip the backslash and the escaped character (which may be a quote)
                 while j < n and src[j] != "'":
                     j += 1
                 j += 1
